@@ -118,6 +118,24 @@ Proof.
   pose proof (all_reachable _ l2 UO2 I2 h1 e1 (Sub _ _ In1)) as T. rewrite H2 in T. exact T.
 Qed.
 
+
+(* ---- appends on RE-OPENED logs (NewLog with LogOptions.Entries, the loaders) and on everything merged
+   from them, with any bounds in between ([owf], Proofs/POpen.v): the clock of such a log starts at 0,
+   below its entries, and still the new entry names exactly the heads and is strictly newer than
+   everything the log holds - Append reads the clock together with the heads. *)
+From IpfsLog Require Import Proofs.POpen.
+Theorem C04_append_on_reopened_log ops r l payload pc h e :
+  owf ops -> nth_error (s_logs (run ops)) r = Some l -> append_entry l payload pc h = Some e ->
+  (forall n, In n (e_next e) <-> In n (okeys (l_heads l))) /\ NoDup (e_next e) /\
+  (forall x, In x (ents l) -> e_time x < e_time e) /\ e_logid e = l_id l /\
+  (forall x, In x (e_refs e) -> ~ In x (e_next e)) /\ NoDup (e_refs e).
+Proof.
+  intros W L AE. destruct (oappend_dominates ops r l W L payload pc h e AE) as [A [B [C D]]].
+  repeat split; auto; try apply A.
+  - exact (ae_refs_not_next l payload pc h e AE).
+  - exact (ae_refs_nodup l payload pc h e AE).
+Qed.
+
 From IpfsLog Require Import Model.ExampleHist Proofs.WfBool.
 Example C04_nonvacuous :
   (* the append that merges three concurrent heads in ex_hist: next = the 3 heads, time 3 > 2, refs = [101] *)
@@ -125,6 +143,13 @@ Example C04_nonvacuous :
   option_map (fun l => option_map (fun e => (e_next e, e_refs e, e_time e)) (append_entry l 4%N 4 302%N))
              (nth_error (s_logs ex_mid) 2) = Some (Some ([201; 301; 102]%N, [101]%N, 3)).
 Proof. split; [apply wfb_wf; vm_compute; reflexivity|vm_compute; reflexivity]. Qed.
+
+Example C04_reopened_nonvacuous :
+  (* ex_hist_open: the log opened over {103,102} has clock 0; its append names 103 and gets time 4 *)
+  owf (firstn 5 ex_hist_open ++ [OAppend 1 4%N 2 201%N]) /\
+  option_map (fun l => (l_time l, option_map (fun e => (e_next e, e_refs e, e_time e)) (append_entry l 4%N 2 201%N)))
+             (nth_error (s_logs (run (firstn 5 ex_hist_open))) 1) = Some (0, Some ([103]%N, [102]%N, 4)).
+Proof. split; [apply owfb_owf; vm_compute; reflexivity|vm_compute; reflexivity]. Qed.
 
 Print Assumptions C04_next_is_heads.
 Print Assumptions C04_clock_id_is_writer_key.
@@ -134,3 +159,5 @@ Print Assumptions C04_refs.
 Print Assumptions C04_log_is_causal_past.
 Print Assumptions C04_appends_form_a_chain.
 Print Assumptions C04_nonvacuous.
+Print Assumptions C04_append_on_reopened_log.
+Print Assumptions C04_reopened_nonvacuous.
